@@ -73,6 +73,22 @@ CHECKS = {
    note="nested same-thread re-entry excluded (scipy LSODA forbids it); threads are real, the choice of who runs between two callbacks is the simulator's (watchdog turns a stuck hand-over into exit 2)",
    technique="deterministic simulation: seeded scheduler with baton-passed caller threads, bit-identity against solo twin",
  ),
+ "C14": dict(
+   engine="simpool",
+   category="exploration",
+   text="Batched clause only. misorientation_indices is driven through a simulated pool (SimPool: discrete-event model of the multiprocessing.Pool API with 1..16 simulated workers, seeded heavy-tailed task durations, stalls, lazy feeding, chunking, so that completion order differs from submission order) on both entry paths (pool=, and ncpus= with pydrex.diagnostics.Pool rebound to a SimPool factory) and through the Ray branch against a stub; the output must equal the scalar misorientation_index applied snapshot by snapshot, bit for bit and in order, with every snapshot reaching the scalar function exactly once. Real multiprocessing.Pool runs (1, 2, 3, 7, 16 workers, external pool) are an uncontrolled supplement reported separately.",
+   design_ref="DESIGN.md 4.8",
+   note="the pool and Ray are stubs modelling the documented ordering guarantees; what is decided is that PyDRex's result assembly does not depend on completion order; scalar clauses of C14 (range, invariances, limits) are pure functions and not claimed",
+   technique="deterministic simulation: discrete-event simulated worker pool with seeded completion orders",
+ ),
+ "C17": dict(
+   engine="simstore",
+   category="exploration",
+   text="Seeded save/load histories over several real NPZ archives in a private directory are checked operation by operation against an in-memory reference map (archive, postfix) -> saved state: loads through Mineral.from_file and Mineral.load (into existing objects whose phase, fabric, regime, grain count and history differ) must restore phase, fabric, regime, grain count and every snapshot bytewise (NaN payloads, infinities, -0.0, denormals); after every operation every judged key of every archive is re-loaded (isolation); restarts drop all in-memory objects; rejected operations injected at arbitrary points (unequal snapshot counts, array sizes != grain count, non-NPZ names; fresh path / existing archive / missing parent directory) must raise ValueError and leave the file-system snapshot (tree, sizes, content hashes) unchanged.",
+   design_ref="DESIGN.md 4.9",
+   note="judged: whole-file save loaded back with nothing in between, and distinct-postfix saves into postfix-only archives; mixing whole-file and postfix saves, postfix re-use, non-.npz save names and crash consistency under I/O errors are generated/observed but not judged (statement silent)",
+   technique="deterministic simulation: seeded operation histories against a reference store model with injected rejected operations",
+ ),
 }
 
 def build():
